@@ -62,7 +62,7 @@ add("gating",
         "setflag", "hasflag", "header", "redirect", "keep")
     + tags(":copy", ":create", ":flags", ":seconds", ":count", ":regex", ":is")
     + strs("fileinto", "reject", "envelope", "body", "vacation", "vacation-seconds", "variables",
-           "date", "imap4flags", "copy", "mailbox", "relational", "regex", "nonesuch", "gt"),
+           "date", "imap4flags", "copy", "mailbox", "relational", "regex", "nonesuch", "gt", "FileInto", "REGEX"),
     quick=5, thorough=6)
 add("tags2",
     ids("if", "header", "address", "envelope", "size", "stop")
